@@ -121,6 +121,8 @@ class OutSocket(object):
         self.sends = []
 
     def send(self, data):
+        if isinstance(data, bytearray):
+            data = bytes(data)
         data = SBytes.of(data)
         self.sends.append(data)
         self.out = self.out + data
